@@ -224,5 +224,22 @@ PROPS["C19"] = {
     "technique": "Lean 4 proof over a procedure model with failure oracle + differential check of the real Syncer; ground-truth promotion monitor",
 }
 
+PROPS["C10"] = {
+    "lean": ["MysyncProofs.C10"],
+    "go": [("internal/app", "^TestVerifC10$")],
+    "level": "proof",
+    "components": ["MysyncModel/App/Repair.lean (repairSlaveNode non-cascade part, performChangeMaster as one action, TryRepairReplication / MarkReplicationRunning / getSuitableAlgorithmType / cooldownPassed, finite abstraction absPass for convergence)",
+                   "replay monitors on the real statement log: unregistered host, self-pointing, recorded master written, reset without entitlement, re-pointing elsewhere than the recorded master, convergence on fault-free 6-pass runs"],
+    "trusted": ["T4 fake MySQL semantics of replication threads / errors (ClearErrOnStart = the environment's answer to START REPLICA)",
+                "observer c10pass (statement log -> per-host action list)",
+                "the finite abstraction Abs of one node (attempt budget abstracted to five classes; the unbounded budget is covered by the ranking-function theorems attempt_uses_budget / attempts_total_bounded)"],
+    "rule": "1-6 consecutive REAL repair passes (repairOfflineMode + repairCluster) of a manager over 3-4 node worlds with decoy unregistered servers: replicas stopped / in temporary error / in permanent error / pointing to another host / claiming master / writable / offline, aggressive mode on-off, attempt limits 1-3, cooldown elapsed or not, one failing call per run in a quarter of the runs (faulted hosts are skipped by the comparison, not by the monitors). distinct = distinct record; non-trivial = at least one repair action",
+    "assumptions": ["cascade replicas are C16; master un-fencing is C17/C18", "convergence is claimed for fault-free passes with the cooldown elapsing between them (the property's own premise: 'in the absence of further faults')"],
+    "min_lines": 1500,
+    "level_text": "Theorems: re-point only to the recorded master and never to itself; configuration reset only if aggressive, non-permanent error, start attempts exhausted, reset attempts left, cooldown passed; permanently broken replication untouched; counters bounded and every attempt counted once; cooldown between attempts; stale master fenced, re-pointed and marked in one pass; ranking function for ANY attempt limit (at most budgetLeft attempts ever); convergence of the finite per-node abstraction to canonical-or-sink within four passes (whole table), canonical state stable.",
+    "level_note": "Trusted: Lean kernel; fakes; observer; the per-node abstraction (tied to the code by the convergence monitor on real multi-pass runs). 'Never changes the recorded master' and 'never talks to an unregistered host' are facts about the action alphabet: enforced on the real code by monitors, not theorems.",
+    "technique": "Lean 4 proof over a decision model + finite abstraction; differential check of real repair passes with raw-statement monitors",
+}
+
 _todo = "machinery for this property is not built yet in this round; planned per DESIGN.md §7/§10 (no claim is made until its check exists)"
 NOT_APPLICABLE = {("C%02d" % i): _todo for i in range(1, 21)}
